@@ -49,6 +49,17 @@ def line_matches(pred, obs):
     return False
 
 
+# how a compile diagnostic starts on stderr: learnt from the VM by learn_diag_mark, not assumed
+DIAG_MARK = ["error:"]
+
+
+def learn_diag_mark(binary):
+    r = vlib.run_batch(binary, [{"id": "probe", "files": {"main.lay": "let = ;\n"}}], per_case_timeout=30)["probe"]
+    err = r.get("stderr", "").lstrip()
+    if r.get("status") == "compile_error" and err and err.split(None, 1)[0]:
+        DIAG_MARK[0] = err.split(None, 1)[0]
+
+
 def observed_status(r):
     """VM result -> comparable status string"""
     if r["status"] == "ok":
@@ -57,7 +68,7 @@ def observed_status(r):
         lines = [l for l in r.get("stderr", "").splitlines() if l.strip()]
         if not lines:
             return f"exit:{r.get('code', 1)}"
-        if lines[0].startswith("error:"):
+        if lines[0].startswith(DIAG_MARK[0]):
             return "import-compile-error" if r.get("code", 0) != 0 else "import-compile-error-but-status-0"
         if lines and lines[-1].startswith("Fatal error deadlock"):
             return "deadlock"
